@@ -144,7 +144,7 @@ func checkC11(c *Ctx) {
 				}
 			}
 			for _, e := range successExits(fl, 0) {
-				facts := fl.At(e.Ret)
+				facts := e.Facts
 				hit := trueOf(facts, func(k string) bool { return strings.HasPrefix(k, "(*hs/security/cert.Cache).check(") })
 				if !hit && !errNilOf(facts, is(dk)) && !(e.Via == deleg) {
 					bad = append(bad, "accepting exit at "+p.Pos(e.Ret.Pos())+" is neither a cache hit nor a delegate success")
